@@ -164,7 +164,10 @@ fn judge_inner(
         Err(d) => {
             return (
                 Verdict::fail(
-                    if l0.toks.iter().any(|t| t == "macro") && fmt::has_interior_comment(&l0) {
+                    if fmt::slash_before_comment(&l0) {
+                        // Same root cause as the token-level finding: `/` glued to a comment.
+                        "tokens-changed:slash-glued-to-following-comment".to_string()
+                    } else if l0.toks.iter().any(|t| t == "macro") && fmt::has_interior_comment(&l0) {
                         "output-does-not-parse:comment-inside-macro-rule".to_string()
                     } else {
                         format!("output-does-not-parse:{}", d.lines().next().unwrap_or("").trim())
@@ -182,7 +185,14 @@ fn judge_inner(
         let (a, b) = first_line_diff(&f1, &f2);
         let kind = if cfg.sort || cfg.merge { "sort/merge" } else { "plain" };
         // Root-cause classes (DESIGN C11 / known findings), most specific first.
-        let class = if fmt::has_interior_comment(&l0) || a.contains("//") || b.contains("//") {
+        // Causal test for the comment-placement family: without its comments the same input is a
+        // fixpoint after one pass.
+        let comment_caused = l0.comment_words.len() > 0 && {
+            let stripped: String = l0.segments.iter().filter(|(c, s)| *c || !s.starts_with("//")).map(|(_, s)| s.as_str()).collect();
+            let g1 = format(db, &stripped, cfg);
+            format(db, &g1, cfg) == g1
+        };
+        let class = if comment_caused || fmt::has_interior_comment(&l0) || a.contains("//") || b.contains("//") {
             "comment-inside-statement-or-list".to_string()
         } else if (cfg.sort || cfg.merge)
             && fmt::lex(db, &f2).map(|l2| fmt::differ_only_in_use_sections(&l1, &l2)).unwrap_or(false)
@@ -457,13 +467,29 @@ impl Prop for C11 {
             }
             let cfg = Cfg::generate(ch);
             let mut mutations = vec![];
+            // Rare syntax forms appended to the input (not for the Sierra oracle: they do not compile).
+            if !want_sierra && ch.chance(1, 2) {
+                let k = 1 + ch.below(3);
+                for _ in 0..k {
+                    let item = *ch.pick(crate::gens::rare::RARE_ITEMS);
+                    if fmt::lex(&pdb, item).is_ok() {
+                        if !text.ends_with('\n') {
+                            text.push('\n');
+                        }
+                        text.push_str(item);
+                        mutations.push("rare-item".to_string());
+                    } else {
+                        cc.stats().count("rare_item_does_not_parse");
+                    }
+                }
+            }
             let inject_comments = ch.chance(1, 3);
             if !ch.chance(1, 5) {
                 if let Ok(l) = fmt::lex(&pdb, &text) {
                     let (m, log) = layout::mutate_layout(ch, &l.segments, inject_comments);
                     if fmt::lex(&pdb, &m).is_ok() {
                         text = m;
-                        mutations = log;
+                        mutations.extend(log);
                     } else {
                         cc.stats().count("layout_mutant_rejected_by_parser");
                     }
@@ -489,8 +515,11 @@ impl Prop for C11 {
                         st.count("formatter_changed_text");
                         st.nontrivial(hash_str(&text) ^ hash_str(&cfg.to_json().to_string()));
                     }
-                    if !mutations.is_empty() {
+                    if mutations.iter().any(|m| m != "rare-item") {
                         st.count("layout_mutant");
+                    }
+                    if mutations.iter().any(|m| m == "rare-item") {
+                        st.count("with_rare_syntax_item");
                     }
                     if mutations.iter().any(|m| m.starts_with("comment")) {
                         st.count("with_injected_comment");
